@@ -306,7 +306,7 @@ def P(pid):
             ('RF-K the verifier pins the representative of every transmitted integer', lambda c: CL.rule_canonical_representatives(c, CL.REPRESENTATIVE_SPECS['C15']), 40),
             ('RF-K list fields of the proof have the number of entries the statement requires', lambda c: CL.rule_list_fields_counted(c, CL.REPRESENTATIVE_SPECS['C15']), 3),
             ('RF-C the statement is part of the Fiat-Shamir challenge', lambda c: CL.rule_statement_in_challenge(c, skip=('nisp2_verify_proof_MultiSecrets',)), 5),
-            ('RF-Q the larger-interval sub-proofs are given the bound of the remainder', CL.rule_remainder_bound, 5),
+            ('RF-Q the larger-interval sub-proofs are given the bound of the remainder', CL.rule_remainder_bound, 3),
             ('RF-D sub-verifiers cannot be switched off by the proof', CL.rule_checks_not_skippable_by_artefact, 8),
             ('RF-P cursor discipline (revealed / hidden position bookkeeping)', CL.rule_cursor_discipline, 10),
             ('RF-W acceptance conditions test the combinations of inputs tested before', lambda c: rf_gatesets.rule_gate_sets(c, group='cl03', only=['proof_verify']), 2),
@@ -323,7 +323,7 @@ def P(pid):
             ('RF-C Fiat-Shamir ingredients', CL.rule_range_proof_hash_sites, 15),
             ('RF-C the statement is part of the Fiat-Shamir challenge', lambda c: CL.rule_statement_in_challenge(c, only=('range_proof',)), 3),
             ('RF-O prover and verifier agree on the interval of the larger-interval response', CL.rule_response_interval_agreement, 2),
-            ('RF-Q the larger-interval sub-proofs are given the bound of the remainder', CL.rule_remainder_bound, 5),
+            ('RF-Q the larger-interval sub-proofs are given the bound of the remainder', CL.rule_remainder_bound, 3),
             ('RF-Q tolerance exponent shape', CL.rule_tolerance_exponent, 2),
             ('RF-Q the honest prover refuses out-of-range values', CL.rule_prover_refuses_out_of_range, 3),
             ('RF-W acceptance conditions test the combinations of inputs tested before', lambda c: rf_gatesets.rule_gate_sets(c, group='cl03', only=['Boudot2000RangeProof::verify']), 2),
